@@ -98,7 +98,7 @@ type Transport struct {
 	LastWire *Response
 	// Observe, if set, sees every request (with its body) before the peer does.
 	Observe func(req *http.Request, body []byte)
-	seq      int
+	seq     int
 	// Cancel, when set, is used by the Cancel* faults to cancel the caller's context.
 	Cancel context.CancelFunc
 }
